@@ -11,7 +11,7 @@ import sys
 
 import names
 import observe
-from build import Builder
+from build import Builder, split_edits
 
 PROPS = {}
 
@@ -163,22 +163,33 @@ def coverage(pid, tm):
 
 
 # ---------------------------------------------------------------------------
-@prop('C03', ['Tree', 'DecorAbs', 'DecorType', 'DecorFCard', 'TreeCtc', 'Mix', 'Ctc3', 'Wide'], naming_matters=False,
+@prop('C03', ['Tree', 'DecorAbs', 'DecorType', 'DecorFCard', 'TreeCtc', 'Mix', 'Ctc3', 'Wide', 'Edit1', 'EditWalk'], naming_matters=False,
       assumptions=['models are built through Feature/Relation/add_relation/ctcs.append, as in the readers'])
 def script_c03(case, naming, tier, seed):
+    build_part, edits = split_edits(case['hist'])
     b = Builder(naming, log=True)
-    b.run(case['hist'])
+    b.run(build_part)
     events = b.events + [observe.query(b.model, naming)]
+    for h in edits:                 # in-place edits: every query is asked again after each of them
+        b.step(h)
+        events.append(b.events[-1])
+        events.append(observe.query(b.model, naming, gone=b.gone))
     return events, None
 
 
 # ---------------------------------------------------------------------------
 def load_event(case, naming):
+    """Build the case's model (for an edit history: the model BEFORE the edits) and log it."""
+    build_part, edits = split_edits(case['hist'])
     b = Builder(naming, log=False)
-    b.run(case['hist'])
+    b.run(build_part)
     from project import project
     post, anom = project(b.model, naming)
-    return b, {'a': 'Load', 'args': {'model': case['model']}, 'out': 'value', 'post': post, 'anom': anom}
+    return b, {'a': 'Load', 'args': {'model': case['base'] if edits else case['model']}, 'out': 'value', 'post': post, 'anom': anom}
+
+
+def edits_of(case):
+    return split_edits(case['hist'])[1]
 
 
 def flip_first_relation(case, builder):
@@ -216,8 +227,18 @@ def ops_script(ops):
                 o = observe.new_op(op)
                 objs.append((o, objid, op, None))
                 events.append(observe.exec_op(o, objid, op, b.model, naming))
+        # in-place edits (edit histories): the SAME model object, edited through public attributes, analysed
+        # again by the SAME operation objects and by fresh ones
+        for k, h in enumerate(edits_of(case)):
+            events.append(b.event_for(h))
+            for o, oid, op, name in objs:
+                if name is not None and name not in b.objs:
+                    continue
+                fobj = b.objs[name] if name else None
+                events.append(observe.exec_op(o, oid, op, b.model, naming, fobj, seqno=k + 2))
+                events.append(observe.exec_op(observe.new_op(op), 900 + oid, op, b.model, naming, fobj, seqno=k + 2))
         # the SAME model object, edited in place, analysed again by the SAME operation objects
-        if hash(repr(case['hist'])) % 3 == 0:
+        if not edits_of(case) and hash(repr(case['hist'])) % 3 == 0:
             edited = flip_first_relation(case, b)
             if edited is not None:
                 from project import project
@@ -243,11 +264,14 @@ def with_chain(script):
 
 SEM_ASSUME = ['Boolean models; constraints purely propositional over feature names',
               'exact counts are brute force over all 2^n selections, n <= family bound']
-prop('C13', ['Tree', 'TreeStar', 'TreeCtc', 'Big', 'Wide', 'Chain', 'Ctc3'], naming_matters=False, assumptions=SEM_ASSUME,
+prop('C13', ['Tree', 'TreeStar', 'TreeCtc', 'Big', 'Wide', 'Chain', 'Ctc3', 'DecorAbs', 'Edit1', 'EditWalk'], naming_matters=True,
+     name_classes=('casepair', 'natural'), name_stride={'quick': 8, 'thorough': 3}, assumptions=SEM_ASSUME,
      prepare=prepare_chain)(with_chain(ops_script(['estimate'])))
-prop('C14', ['Tree', 'TreeStar', 'TreeCtc', 'Big', 'Wide', 'Chain', 'Ctc3'], naming_matters=False, assumptions=SEM_ASSUME,
+prop('C14', ['Tree', 'TreeStar', 'TreeCtc', 'Big', 'Wide', 'Chain', 'Ctc3', 'DecorAbs', 'Edit1', 'EditWalk'], naming_matters=True,
+     name_classes=('casepair', 'natural'), name_stride={'quick': 8, 'thorough': 3}, assumptions=SEM_ASSUME,
      prepare=prepare_chain)(with_chain(ops_script(['core'])))
-prop('C15', ['Tree', 'TreeStar', 'TreeCtc', 'Big', 'Wide', 'Chain', 'Ctc3'], naming_matters=False, assumptions=SEM_ASSUME,
+prop('C15', ['Tree', 'TreeStar', 'TreeCtc', 'Big', 'Wide', 'Chain', 'Ctc3', 'DecorAbs', 'Edit1', 'EditWalk'], naming_matters=True,
+     name_classes=('casepair', 'natural'), name_stride={'quick': 8, 'thorough': 3}, assumptions=SEM_ASSUME,
      prepare=prepare_chain)(with_chain(ops_script(['atomic'])))
 C16_OPS = ['leaves', 'count_leaves', 'depth', 'abf', 'varpoints', 'ancestors']
 
@@ -319,7 +343,7 @@ METRIC_METHODS = [
     'extra_constraint_representativeness']
 
 
-@prop('C17', ['Tree', 'DecorAbs', 'TreeCtc', 'Mix', 'Ctc3', 'Wide', 'Chain'], name_classes=('substr',), naming_matters=True, name_stride={'quick': 5, 'thorough': 2},
+@prop('C17', ['Tree', 'DecorAbs', 'TreeCtc', 'Mix', 'Ctc3', 'Wide', 'Chain', 'Edit1', 'EditWalk'], name_classes=('substr',), naming_matters=True, name_stride={'quick': 5, 'thorough': 2},
       assumptions=['constraint listings are compared with the per-constraint predicates of the model (judged by C18)'])
 def script_c17(case, naming, tier, seed):
     b, ev = load_event(case, naming)
@@ -339,6 +363,10 @@ def script_c17(case, naming, tier, seed):
     else:
         flt = rnd.sample(METRIC_METHODS, rnd.randrange(2, 12))
     events.append(observe.exec_metrics(observe.new_op('metrics'), 2, b.model, naming, flt=flt))
+    for k, h in enumerate(edits_of(case)):      # in-place edits: the same FMMetrics object again, and a fresh one
+        events.append(b.event_for(h))
+        events.append(observe.exec_metrics(obj, 1, b.model, naming, seqno=k + 3))
+        events.append(observe.exec_metrics(observe.new_op('metrics'), 3 + k, b.model, naming))
     return events, None
 
 
@@ -360,7 +388,7 @@ POOL_PICKS = [
 
 def prepare_hist(cases, tier, seed):
     pool = []
-    models = [(cid, c) for cid, c in cases if 'model' in c]
+    models = [(cid, c) for cid, c in cases if 'model' in c and 'base' not in c]
     for pick in POOL_PICKS:
         for cid, c in models:
             if pick(case_tags(c), c['model']):
@@ -395,6 +423,13 @@ def prepare_hist(cases, tier, seed):
         iso.append(_json.load(open(op_)))
     out = []
     for cid, c in cases:
+        if 'base' in c:          # edit histories: every operation before and after in-place edits
+            out.append((cid, dict(c, tags=['hist:edit'])))
+            continue
+        if cid.rsplit('-', 1)[0] in ('TreeStar', 'DecorAbs'):    # every operation, twice on one object, on [a..*] / abstract models
+            if int(hashlib.md5(cid.encode()).hexdigest(), 16) % (3 if tier == 'quick' else 1) == 0:
+                out.append((cid, dict(c, allops=True, tags=['hist:allops'] + case_tags(c))))
+            continue
         if 'model' in c:
             continue
         if c['kind'] == 'exec' and not c['seq']:
@@ -414,10 +449,22 @@ def _exec_any(obj, objid, op, model, naming, builder, seqno):
     return observe.exec_op(obj, objid, op, model, naming, fobj, seqno=seqno)
 
 
-@prop('C19', ['Tree', 'TreeCtc', 'DecorAttr', 'Hist'], naming_matters=False, prepare=prepare_hist,
+@prop('C19', ['Tree', 'TreeCtc', 'DecorAttr', 'Hist', 'Edit1', 'EditWalk', 'TreeStar', 'DecorAbs'], naming_matters=False, prepare=prepare_hist,
       assumptions=['"depends only on its argument" is checked as: over one history, equal (operation, argument, model) '
                    'give equal results whichever object is used and whatever it analysed before'])
 def script_c19(case, naming, tier, seed):
+    ALL_OPS = ['estimate', 'core', 'atomic', 'leaves', 'count_leaves', 'depth', 'abf', 'varpoints', 'ancestors']
+    if 'base' in case:
+        evs, _ = ops_script(ALL_OPS)(case, naming, tier, seed)
+        return evs, {'history': {'kind': 'edit', 'edits': [h['a'] for h in edits_of(case)]}}
+    if case.get('allops'):
+        b, ev = load_event(case, naming)
+        events = [ev]
+        for k, op in enumerate(ALL_OPS + ['metrics']):
+            o = observe.new_op(op)
+            events.append(_exec_any(o, k + 1, op, b.model, naming, b, 1))
+            events.append(_exec_any(o, k + 1, op, b.model, naming, b, 2))
+        return events, {'history': {'kind': 'allops'}}
     pool = case['pool']
     events = []
     if case['kind'] == 'genattr':
@@ -467,11 +514,26 @@ def script_c19(case, naming, tier, seed):
 
 
 # ---------------------------------------------------------------------------
-@prop('C20', ['Eq', 'Eq2', 'Eq3'], name_classes=('plain', 'afmword', 'space'), naming_matters=True,
+@prop('C20', ['Eq', 'Eq2', 'Eq3', 'Edit1', 'EditWalk'], name_classes=('plain', 'afmword', 'space', 'natural'), naming_matters=True,
       assumptions=['names never differ only in letter case (the one situation where the statement allows either answer)',
                    'features carry no attributes in this family; equality ignores them'])
 def script_c20(case, naming, tier, seed):
     from build import build_from_model
+    if edits_of(case):
+        # edit history: compare (and hash) before the edits, edit in place, compare with the old twin and with
+        # an independently built copy of the new state
+        noedit = {'k': 'history', 'i': 0, 'j': 0, 'x': '', 'lo': 0, 'hi': 0}
+        b, ev = load_event(case, naming)
+        twin0, _ = build_from_model(case['base'], naming, 'revall')
+        events = [ev, {'a': 'Other', 'args': {'model': case['base']}, 'out': 'value'},
+                  observe.compare(b.model, twin0, naming, 'revall', noedit)]
+        for h in edits_of(case):
+            events.append(b.event_for(h))
+            events.append(observe.compare(b.model, twin0, naming, 'edit', noedit))
+        twin1, _ = build_from_model(case['model'], naming, 'revall')
+        events += [{'a': 'Other', 'args': {'model': case['model']}, 'out': 'value'},
+                   observe.compare(b.model, twin1, naming, 'revall', noedit)]
+        return events, {'key': ['edit-history'], 'nontrivial': True}
     b, ev = load_event(case, naming)
     other, _ = build_from_model(case['other'], naming, case['how'])
     events = [ev, {'a': 'Other', 'args': {'model': case['other']}, 'out': 'value'},
@@ -509,6 +571,17 @@ def roundtrip_script(fmt):
         b, ev = load_event(case, naming)
         events = [ev]
         model = b.model
+        if edits_of(case):
+            # edit history: the model is written once, edited in place, and is then the source of the cycles
+            wev, path, _ = formats.write_event(fmt, model, naming)
+            events.append(wev)
+            if os.path.exists(path):
+                os.remove(path)
+            for h in edits_of(case):
+                events.append(b.event_for(h))
+            from project import project
+            post, anom = project(model, naming)
+            events.append({'a': 'Rebase', 'args': {'from': 'edit', 'to': fmt}, 'out': 'value', 'post': post, 'anom': anom})
         if src:
             # cross-format chain: write and read with the source format; the model ITS reader built
             # is the source of this format's history
@@ -629,34 +702,53 @@ def prepare_c12(cases, tier, seed):
     return res
 
 
-@prop('C12', ['C12-Tree', 'C12-Ctc', 'C12-Ctc2', 'C12-Attr'], name_classes=('nonascii', 'space'), naming_matters=True,
+@prop('C12', ['C12-Tree', 'C12-Ctc', 'C12-Ctc2', 'C12-Attr', 'C12-Edit1', 'C12-EditWalk'], name_classes=('nonascii', 'space'), naming_matters=True,
       name_stride={'quick': 2, 'thorough': 1}, prepare=prepare_c12,
       assumptions=['the environment matrix (hash seeds x locale x PYTHONUTF8) is sampled, not exhaustive',
                    'purity is judged on the projected object graph'])
 def script_c12(case, naming, tier, seed):
     b, ev = load_event(case, naming)
     events = [ev]
-    if len(case['model']['feats']) > 2:        # an independently built, child-permuted twin is serialised first
-        from build import build_from_model
-        twin, _ = build_from_model(case['model'], naming, 'revkids')
+    from build import build_from_model
+
+    def write_all(m, env=None):
         for fmt in ALL_WRITERS:
-            wev, path, _ = formats.write_event(fmt, twin, naming)
-            if os.path.exists(path):
-                os.remove(path)
-        events.append({'a': 'WriteOther', 'args': {'how': 'revkids'}, 'out': 'value'})
-    for rep in range(3):                       # repeated calls on the same model object
-        for fmt in ALL_WRITERS:
-            wev, path, _ = formats.write_event(fmt, b.model, naming)
-            wev['args']['env'] = 'inproc%d' % rep
+            wev, path, _ = formats.write_event(fmt, m, naming)
+            if env:
+                wev['args']['env'] = env
             events.append(wev)
-            if rep == 0 and fmt in READABLE and wev['out'] == 'value':
-                rev, _ = formats.read_event(fmt, path, naming, action='ReadBack')
-                events.append(rev)
             if os.path.exists(path):
                 os.remove(path)
+
+    if edits_of(case):
+        # edit history: every writer before the edits, after them, and on an independently built copy of the result
+        write_all(b.model, 'before-edit')
+        for h in edits_of(case):
+            events.append(b.event_for(h))
+        write_all(b.model, 'after-edit')
+        twin, _ = build_from_model(case['model'], naming, 'none')
+        write_all(twin, 'fresh-copy')
+    else:
+        if len(case['model']['feats']) > 2:        # an independently built, child-permuted twin is serialised first
+            twin, _ = build_from_model(case['model'], naming, 'revkids')
+            for fmt in ALL_WRITERS:
+                wev, path, _ = formats.write_event(fmt, twin, naming)
+                if os.path.exists(path):
+                    os.remove(path)
+            events.append({'a': 'WriteOther', 'args': {'how': 'revkids'}, 'out': 'value'})
+        for rep in range(3):                       # repeated calls on the same model object
+            for fmt in ALL_WRITERS:
+                wev, path, _ = formats.write_event(fmt, b.model, naming)
+                wev['args']['env'] = 'inproc%d' % rep
+                events.append(wev)
+                if rep == 0 and fmt in READABLE and wev['out'] == 'value':
+                    rev, _ = formats.read_event(fmt, path, naming, action='ReadBack')
+                    events.append(rev)
+                if os.path.exists(path):
+                    os.remove(path)
     k = next(i for i, (kk, nm) in enumerate(namings_for('C12', tier, seed, case['_cid'])) if nm.classes == naming.classes)
     kk = namings_for('C12', tier, seed, case['_cid'])[k][0]
-    events.extend(case['env_events'].get(kk, []))
+    events.extend(case['env_events'].get(kk, []))      # fresh interpreters: the final model under each environment
     return events, {'envs': len(case['envs'])}
 
 
@@ -665,15 +757,19 @@ def script_c12(case, naming, tier, seed):
 def export_script(langs):
     def script(case, naming, tier, seed):
         b, ev = load_event(case, naming)
-        return [ev] + [formats.export_event(lang, b.model, naming) for lang in langs], None
+        events = [ev] + [formats.export_event(lang, b.model, naming) for lang in langs]
+        for h in edits_of(case):        # in-place edits: exported again after each
+            events.append(b.event_for(h))
+            events += [formats.export_event(lang, b.model, naming) for lang in langs]
+        return events, None
     return script
 
 
-prop('C10', ['Tree', 'TreeCtc', 'Clafer-Ctc2', 'Deep-Ctc', 'Wide', 'Ctc3'], naming_matters=False,
+prop('C10', ['Tree', 'TreeCtc', 'Clafer-Ctc2', 'Deep-Ctc', 'Wide', 'Ctc3', 'Edit1', 'EditWalk'], naming_matters=False,
      assumptions=['the .exp precedence is not < and < or < -> < <->, binary connectives left-associative',
                   'SXFM identifiers may be bare words or double-quoted strings'],
      trusted=['harness/parse_export.py (syntax of SXFM and .exp only)'])(export_script(['splot', 'pl']))
-prop('C11', ['Clafer-Tree', 'Clafer-Ctc', 'Clafer-Ctc2', 'Deep-Ctc', 'Clafer-Attr', 'Wide', 'Ctc3'], name_classes=('space', 'punct', 'opword', 'dot', 'casepair'), naming_matters=True,
+prop('C11', ['Clafer-Tree', 'Clafer-Ctc', 'Clafer-Ctc2', 'Deep-Ctc', 'Clafer-Attr', 'Wide', 'Ctc3', 'Edit1', 'EditWalk'], name_classes=('space', 'punct', 'opword', 'dot', 'casepair'), naming_matters=True,
      attr_names_too=True,
      assumptions=['both ! and not are accepted as Clafer negation', 'identifiers may be bare words or double-quoted strings'],
      trusted=['harness/parse_export.py (syntax of the Clafer subset only)'])(export_script(['clafer']))
@@ -913,5 +1009,6 @@ def script_c02(case, naming, tier, seed):
     return script_c09(case, naming, tier, seed)
 
 
-prop('C16', ['Tree', 'TreeStar', 'DecorAbs', 'Big', 'Wide', 'Chain'], naming_matters=False, prepare=prepare_c16,
+prop('C16', ['Tree', 'TreeStar', 'DecorAbs', 'Big', 'Wide', 'Chain', 'Edit1', 'EditWalk'], naming_matters=True,
+     name_classes=('casepair', 'natural'), name_stride={'quick': 8, 'thorough': 3}, prepare=prepare_c16,
      assumptions=['corpus models above the TLC size bound are judged on the mutual agreement of scalar results only'])(script_c16)
